@@ -936,6 +936,12 @@ func c02IPDispatch(c *Ctx) {
 								gotEmpty = true
 							}
 						}
+						// the same test on the length: len(zone) == 0, len(zone) < 1, ...
+						if v, isZero, okZ := core.ZeroTest(g.Cond, g.Truth); okZ && isZero && zone != nil {
+							if lc, isC := v.(*ssa.Call); isC && core.CalleeName(&lc.Call) == "builtin.len" && lc.Call.Args[0] == ssa.Value(zone) {
+								gotEmpty = true
+							}
+						}
 					}
 					if gotHas && gotEmpty && core.MayFollow(ret.Block().Instrs[0], ci) == false && core.Reaches(cut.Block(), ret.Block()) || (gotHas && gotEmpty && cut.Block() == ret.Block()) {
 						okZone = true
